@@ -250,6 +250,45 @@ theorem joint_instances_agree (size threshold dealer ma mb : Nat) (hd : dealer <
     ba1 ba2 ba3 bb1 bb2 bb3 n1 n2 n3
 
 open Proofs.DkgCommute Proofs.DkgAgree in
+/-- the same for what Joint `End` actually uses of an instance: the verdict after `End`'s settling of unanswered
+    complaints and, if the dealer stays qualified, its verification vector -/
+theorem joint_instance_views_agree (size threshold dealer ma mb : Nat) (hd : dealer < size) (hs : size ≤ 256)
+    (hma : ma < size) (hmb : mb < size) (hmad : ma ≠ dealer) (hmbd : mb ≠ dealer) (hab : ma ≠ mb)
+    (ra1 ra2 ra3 rb1 rb2 rb3 : List Dl)
+    (ba1 : ∀ e ∈ ra1, e.sender < size) (ba2 : ∀ e ∈ ra2, e.sender < size) (ba3 : ∀ e ∈ ra3, e.sender < size)
+    (bb1 : ∀ e ∈ rb1, e.sender < size) (bb2 : ∀ e ∈ rb2, e.sender < size) (bb3 : ∀ e ∈ rb3, e.sender < size)
+    (n1 : NetD dealer ma mb ra1 rb1 (bR1 (fresh O size threshold ma dealer) ra1) (bR1 (fresh O size threshold mb dealer) rb1))
+    (n2 : NetD dealer ma mb ra2 rb2 (bR2 (fresh O size threshold ma dealer) ra1 ra2)
+      (bR2 (fresh O size threshold mb dealer) rb1 rb2))
+    (n3 : NetD dealer ma mb ra3 rb3 (bR3 (fresh O size threshold ma dealer) ra1 ra2 ra3)
+      (bR3 (fresh O size threshold mb dealer) rb1 rb2 rb3)) :
+    pview (final (fresh O size threshold ma dealer) ra1 ra2 ra3) =
+      pview (final (fresh O size threshold mb dealer) rb1 rb2 rb3) :=
+  pview_agree_instance size threshold dealer ma mb hd hs hma hmb hmad hmbd hab ra1 ra2 ra3 rb1 rb2 rb3
+    ba1 ba2 ba3 bb1 bb2 bb3 n1 n2 n3
+
+open Proofs.DkgCommute Proofs.DkgAgree in
+/-- **from the instances to Joint-Feldman's `End`** (partial: conditional on the two instances whose dealer is one
+    of the two participants): two participants whose `n` instances have pairwise the same public view — which
+    `joint_instance_views_agree` proves for every dealer other than the two participants themselves — get from `End`
+    the same public result: both fail (too many disqualified dealers, or an identity group key), or both hold the same
+    group public key and the same vector of public key shares, each with its own combined private share (`End` fails
+    privately at a participant only if that combined share is zero) -/
+theorem joint_end_agrees_given_instances_partial (jA jB : JSt O) (hrA : jA.jointRunning = true)
+    (hrB : jB.jointRunning = true) (hs : jA.size = jB.size) (ht : jA.threshold = jB.threshold)
+    (htA : ∀ s ∈ jA.fvss, s.sharesTimeout = true ∧ s.complaintsTimeout = true)
+    (htB : ∀ s ∈ jB.fvss, s.sharesTimeout = true ∧ s.complaintsTimeout = true)
+    (hv : jA.fvss.map pview = jB.fvss.map pview) :
+    ∃ pub : Option (Bytes × List Bytes), ∃ xA xB : Nat,
+      (Joint.end_ jA).2.2 = (match pub with | none => .failure | some Yys => if xA = 0 then .failure else .keys xA Yys.1 Yys.2) ∧
+      (Joint.end_ jB).2.2 = (match pub with | none => .failure | some Yys => if xB = 0 then .failure else .keys xB Yys.1 Yys.2) := by
+  refine ⟨jpub jA.size jA.threshold jA.fvss, jshare jA.fvss, jshare jB.fvss, ?_, ?_⟩
+  · rw [(tie_joint jA 0 [] hrA).2.2 htA, jres_jpub]
+    cases jpub jA.size jA.threshold jA.fvss <;> rfl
+  · rw [(tie_joint jB 0 [] hrB).2.2 htB, jres_jpub, ← hs, ← ht, ← jpub_of_pviews jA.size jA.threshold jA.fvss jB.fvss hv]
+    cases jpub jA.size jA.threshold jA.fvss <;> rfl
+
+open Proofs.DkgCommute Proofs.DkgAgree in
 /-- the broadcasts of `A` an instance of another dealer ignores: everything but `A`'s complaint against that dealer -/
 theorem joint_irrelevant_broadcasts_ignored (s : St O) (hme : s.me ≠ s.dealer) (A : Nat) (hAd : A ≠ s.dealer)
     (hd : s.dealer < 256) (e : Dl) (h : irrelevant A s.dealer e = true) :
@@ -387,3 +426,5 @@ end Props.C07
 #print axioms Props.C07.reads_nonzero_bls
 #print axioms Props.C07.joint_instances_agree
 #print axioms Props.C07.joint_irrelevant_broadcasts_ignored
+#print axioms Props.C07.joint_instance_views_agree
+#print axioms Props.C07.joint_end_agrees_given_instances_partial
